@@ -80,17 +80,97 @@ def lay_out(arr, layout):
 
 
 def fval(v, negzero=False):
-    """abstract value (None | integer number of quarters) -> float; `negzero`: zeros carry the sign bit"""
+    """abstract value (None = NaN | integer number of quarters | "inf" | "-inf") -> float; `negzero`: zeros carry the
+    sign bit"""
     if v is None:
         return math.nan
+    if v == "inf":
+        return math.inf
+    if v == "-inf":
+        return -math.inf
     if v == 0 and negzero:
         return -0.0
     return v / 4
 
 
-def to_np(a, ndim):
-    arr = np.array([fval(v, a.get("negzero", False)) for v in a["data"]], dtype=np.float64)
-    return arr.reshape(a["shape"])
+def isnum(v):
+    """a finite abstract value"""
+    return v is not None and not isinstance(v, str)
+
+
+# dtypes of plain images: the concrete NumPy dtype, and the class the Lean model knows (all integer dtypes are one class:
+# they are used only where every value and partial sum lies in their range)
+PLAIN_DT = {"f8": np.float64, "f4": np.float32, "i8": np.int64, "i4": np.int32, "i2": np.int16, "u1": np.uint8,
+            "u2": np.uint16, "b1": np.bool_}
+
+
+def dclass(dt):
+    return dt if dt in ("f8", "f4", "b1") else "i8"
+
+
+def fits_dtype(a):
+    """every value of the image description is exactly representable in its dtype"""
+    dt = a.get("dtype", "f8")
+    for v in a["data"]:
+        if dt == "f8":
+            ok = not isnum(v) or abs(v) < 2 ** 55
+        elif dt == "f4":
+            ok = not isnum(v) or abs(v) < 2 ** 24
+        elif dt == "b1":
+            ok = v in (0, 4)
+        else:
+            info = np.iinfo(PLAIN_DT[dt])
+            ok = isnum(v) and v % 4 == 0 and info.min <= v // 4 <= info.max
+        if not ok:
+            return False
+    return True
+
+
+def to_np(a, ndim=None):
+    arr = np.array([fval(v, a.get("negzero", False)) for v in a["data"]], dtype=np.float64).reshape(a["shape"])
+    dt = a.get("dtype", "f8")
+    return arr if dt == "f8" else arr.astype(PLAIN_DT[dt])  # exact: fits_dtype is checked before
+
+
+def plain_inexact(descs, fillq):
+    """None, or why float / integer arithmetic on this case need not be exact (the case is then not judged): a value not
+    representable in its image's dtype; sums beyond the mantissa of the canvas; an integer canvas whose range the partial
+    sums (or a negative value, if it is unsigned) could leave"""
+    if not all(fits_dtype(a) for a in descs):
+        return "value not representable in the dtype of its image"
+    vals = [v for a in descs for v in a["data"] if isnum(v)]
+    tot = sum(abs(v) for v in vals) + (abs(fillq) if isnum(fillq) else 0)
+    if tot >= 2 ** 53:
+        return "sums not exact"
+    dt0 = descs[0].get("dtype", "f8")
+    if dt0 == "f4" and tot >= 2 ** 24:
+        return "sums not exact in a float32 canvas"
+    if dclass(dt0) == "i8":
+        info = np.iinfo(PLAIN_DT[dt0])
+        if tot // 4 + 1 > info.max:
+            return "sums could leave the range of the integer canvas"
+        if info.min == 0 and (any(v < 0 for v in vals) or (isnum(fillq) and fillq < 0)):
+            return "negative value into an unsigned canvas"
+    return None
+
+
+def enc_v(v):
+    """abstract value -> driver value"""
+    return v if (v is None or isinstance(v, str)) else core.rat(Fraction(v, 4))
+
+
+def ptok(j, rdt):
+    """driver pixel (null | "inf" | "-inf" | "undef" | rational) -> canonical token as an array of dtype rdt holds it"""
+    if j is None:
+        return "nan"
+    if isinstance(j, str):
+        return j
+    q = unrat(j)
+    if rdt == "f4":
+        return fhex(float(np.float32(float(q))))
+    if rdt == "f2":
+        return fhex(float(np.float16(float(q))))
+    return fhex(float(q))
 
 
 # value classes of one image (or of one field of a structured image)
@@ -684,60 +764,120 @@ class C11(Prop):
                                         {**nxt, "fields": [fb("f4", [1, 8]), fa("f8", [1, 2])]}]}
 
     # ------------------------------------------------------------------ evaluation
-    def run_plain(self, register, case, arrs_desc, fill, mode, offs_kind=None, layouts=True, repeat=False, kinds=False):
-        """one call of overlap_arrays (two on the same objects with `repeat`); returns (result dict, inputs_unchanged,
-        second result equals the first | None, the Args object).  `kinds`: use the case's container / fill / mode kinds"""
-        ndim = case["ndim"]
-        pairs = build_objects(arrs_desc, lambda a: lay_out(to_np(a, ndim), a.get("layout", "c") if layouts else "c"),
+    # ------------------------------------------------------------------ plain merges
+    def plain_args(self, case, descs, fillq, mode, kinds, layouts=True, extra_first=None):
+        """the argument objects of one call of overlap_arrays on the image descriptions `descs`; `kinds`: use the case's
+        container / fill / mode kinds; `extra_first`: an ndarray (an earlier result) handed in as the first image"""
+        pairs = build_objects(descs[1:] if extra_first is not None else descs,
+                              lambda a: lay_out(to_np(a), a.get("layout", "c") if layouts else "c"),
                               case.get("share_objects", False))
-        sub = {"arrays": arrs_desc, "offs_kind": offs_kind or "tuple"}
+        if extra_first is not None:
+            pairs = [(extra_first, extra_first)] + pairs
+        sub = {"arrays": descs, "offs_kind": case.get("offs_kind", "tuple") if kinds else "tuple"}
         offsets, okind = make_offsets(sub)
-        fobj, fkind = make_fill(case) if kinds else (fill, "float")
+        fcase = {"fill": fillq, "fill_kind": case.get("fill_kind", "float") if kinds else "float"}
+        fobj, fkind = make_fill(fcase)
         mobj = np.str_(mode) if kinds and case.get("mode_kind") == "npstr" else mode
         args = Args(pairs, offsets, fobj, mobj, case.get("arrs_kind", "list") if kinds else "list")
         args.kinds = {"offsets": okind, "fill": fkind, "arrays": type(args.arrays).__name__, "mode": type(mobj).__name__}
+        return args
 
-        def call():
-            try:
+    @staticmethod
+    def call_plain(register, args):
+        """(canonical result, the returned ndarray | None)"""
+        import warnings
+
+        try:
+            with warnings.catch_warnings():
+                warnings.simplefilter("ignore", RuntimeWarning)  # NaN / infinity cast into an integer canvas (pixel not judged)
                 res = register.overlap_arrays(args.arrays, args.offsets, fill=args.fill, mode=args.mode)
-                return {"shape": list(res.shape), "data": [fhex(v) for v in res.ravel()]}
-            except Exception as e:  # the quantified inputs never raise
-                return {"raises": type(e).__name__, "msg": str(e)[:200]}
+            dt = res.dtype.str.lstrip("<=|>")
+            return {"dtype": dt, "shape": list(res.shape), "data": [fhex(v) for v in res.ravel()]}, res
+        except Exception as e:  # the quantified inputs never raise
+            return {"raises": exc_class(e), "msg": str(e)[:200]}, None
 
-        out = call()
-        unchanged = args.unchanged()
-        again = None
-        if repeat:
-            again = call() == out
-            unchanged = unchanged and args.unchanged()
-        return out, unchanged, again, args
+    def judge_plain(self, ctx, descs, mode, fillq, ndim, got, feats):
+        """one call against the Lean model: returns (impl, model, spec) made comparable, or None when the model raises
+        (an integer or boolean canvas in mean mode / with a NaN or infinite fill: not judged).  A pixel is judged where
+        the hypothesis of theorem pixel_specD holds and the demanded value is representable in the canvas dtype; the other
+        pixels are replaced by "unjudged" on all three sides (a difference from the model there is recorded only)."""
+        rep = ctx.driver.call("c11.overlapD", mode=mode, fill=enc_v(fillq), ndim=ndim,
+                              arrays=[{"off": a["off"], "shape": a["shape"], "dtype": dclass(a.get("dtype", "f8")),
+                                       "data": [enc_v(v) for v in a["data"]]} for a in descs])
+        if "raises" in rep:
+            feats.add("dtype:" + rep["dtype"] + "-canvas-raises-" + rep["raises"] + "(not compared)")
+            return None
+        dt0 = descs[0].get("dtype", "f8")
+        # rounding of a non-dyadic mean follows the floating-point dtype the implementation returned
+        rdt = got["dtype"] if "dtype" in got and got["dtype"] in ("f8", "f4", "f2") else dt0
+        model = [ptok(v, rdt) for v in rep["model"]]
+        spec = [ptok(v, rdt) for v in rep["spec"]]
+        exact = [ptok(v, rdt) for v in rep["exact"]]
+        infinite = any(isinstance(v, str) for a in descs for v in a["data"]) or isinstance(fillq, str) and "inf" in fillq
+        whole = rep["dtype"] != "i8" or not infinite  # arithmetic on an undefined integer pixel is not modelled
+        judged = [whole and h and sp == ex and sp != "undef" for h, sp, ex in zip(rep["hyp"], spec, exact)]
+        if not all(rep["hyp"]):
+            feats.add("hyp:inf-meets-neg-inf(recorded only)" if rep["dtype"] in ("f8", "f4") else
+                      "hyp:lossy-sum-in-" + rep["dtype"] + "-canvas(recorded only)")
+        if any(h and sp != ex for h, sp, ex in zip(rep["hyp"], spec, exact)):
+            feats.add("dtype:value-not-representable-in-canvas(recorded only)")
+        if not whole:
+            feats.add("dtype:infinity-into-integer-canvas(recorded only)")
+        impl = {k: v for k, v in got.items() if k not in ("msg", "dtype")}
+        if "data" in impl and impl.get("shape") == rep["shape"] and len(impl["data"]) == len(model):
+            if any(not j and x != m for j, x, m in zip(judged, impl["data"], model)):
+                feats.add("unjudged-pixel-differs-from-model(recorded only)")
+            impl["data"] = [x if j else "unjudged" for j, x in zip(judged, impl["data"])]
+        mask = lambda data: [x if j else "unjudged" for j, x in zip(judged, data)]
+        if all(judged):
+            feats.add("all-pixels-judged")
+        return impl, {"shape": rep["shape"], "data": mask(model)}, {"shape": rep["shape"], "data": mask(spec)}, judged
 
-    def metamorphic(self, register, case, base, fill):
-        """implementation against implementation; every entry must come out True"""
-        arrs, mode, t = case["arrays"], case["mode"], case["meta"]["t"]
+    def metamorphic(self, register, case, descs, mode, fillq, expect, judged):
+        """the same merge with a common translation added to every offset, with every permutation of the inputs that keeps
+        the first image's dtype (mean / sum), judged against the Lean specification of the ORIGINAL call (theorems
+        overlapD_translation_invariant, overlapD_perm_invariant); replace: the last-writer relation of theorem
+        overlap_replace_last_writer on the implementation's results.  Every entry must come out True."""
+        t = case["meta"]["t"]
         res = {}
-        moved = [{**a, "off": [o + d for o, d in zip(a["off"], t)]} for a in arrs]
-        res["translation"] = self.run_plain(register, case, moved, fill, mode, layouts=False)[0] == base
-        if mode != "replace" and len(arrs) <= 4:
-            res["permutations"] = all(self.run_plain(register, case, list(p), fill, mode, layouts=False)[0] == base
-                                      for p in itertools.permutations(arrs))
-        if mode == "replace" and "shape" in base:
-            last = arrs[-1]
+        expect = {k: expect[k] for k in ("shape", "data") if k in expect}
+
+        def run(ds):
+            got, raw = self.call_plain(register, self.plain_args(case, ds, fillq, mode, kinds=False, layouts=False))
+            out = {k: v for k, v in got.items() if k not in ("msg", "dtype")}
+            if "data" in out and len(out["data"]) == len(judged):
+                out["data"] = [x if j else "unjudged" for j, x in zip(judged, out["data"])]
+            return out, raw
+
+        moved = [{**a, "off": [o + d for o, d in zip(a["off"], t)]} for a in descs]
+        res["translation"] = run(moved)[0] == expect
+        if mode != "replace" and len(descs) <= 4:
+            dt0 = descs[0].get("dtype", "f8")
+            res["permutations"] = all(run(list(p))[0] == expect for p in itertools.permutations(descs)
+                                      if p[0].get("dtype", "f8") == dt0)
+        last = descs[-1]
+        if mode == "replace" and all(judged) and "shape" in expect and (len(descs) > 1 or dclass(last.get("dtype", "f8")) in ("f8", "f4")):
             blank = {**last, "data": [None] * len(last["data"])}
-            other = self.run_plain(register, case, arrs[:-1] + [blank], fill, mode, layouts=False)[0]
-            ok = other.get("shape") == base["shape"]
+            if dclass(blank.get("dtype", "f8")) not in ("f8", "f4"):
+                blank["dtype"] = "f8"  # an integer image cannot be blank; the dtype of a later image does not matter
+            base, raw_b = run(descs)
+            other, raw_o = run(descs[:-1] + [blank])
+            ok = raw_b is not None and raw_o is not None and raw_b.shape == raw_o.shape and raw_b.dtype == raw_o.dtype
             if ok:
-                lo = [min(a["off"][k] for a in arrs) for k in range(case["ndim"])]
-                exp = np.array(other["data"], dtype=object).reshape(base["shape"])
+                lo = [min(a["off"][k] for a in descs) for k in range(case["ndim"])]
                 sl = tuple(slice(o - m, o - m + s) for o, m, s in zip(last["off"], lo, last["shape"]))
-                vals = np.array([None if v is None else fhex(v / 4) for v in last["data"]], dtype=object).reshape(last["shape"])
+                vals = to_np({**last, "layout": "c"})
+                keep = ~np.isnan(vals) if vals.dtype.kind == "f" else np.ones(vals.shape, dtype=bool)
+                exp = raw_o.copy()
                 sub = exp[sl]
-                mask = np.array([v is not None for v in last["data"]]).reshape(last["shape"])
-                if sub.shape != mask.shape:  # the result is not the bounding box (reported by the main leg as well)
+                if sub.shape != vals.shape:  # the result is not the bounding box (reported by the main leg as well)
                     ok = False
                 else:
-                    sub[mask] = vals[mask]
-                    ok = list(exp.ravel()) == base["data"]
+                    import warnings
+                    with warnings.catch_warnings():
+                        warnings.simplefilter("ignore", RuntimeWarning)
+                        sub[keep] = vals[keep]
+                    ok = [fhex(v) for v in exp.ravel()] == [fhex(v) for v in raw_b.ravel()]
             res["last_writer"] = ok
         return res
 
@@ -755,66 +895,218 @@ class C11(Prop):
             return outcome({"excluded": "canvas too large"}, None, None, spec_ok=True, model_ok=True, undetermined=True,
                            hyp=False, features=["excluded:canvas-too-large"])
         ndim, mode = case["ndim"], case["mode"]
-        fill = math.nan if case["fill"] is None else case["fill"] / 4
-        dfill = None if case["fill"] is None else core.rat(Fraction(case["fill"], 4))
-        offsets = [tuple(a["off"]) for a in case["arrays"]]
-        feats = {f"ndim{ndim}", f"mode:{mode}", "fill:" + ("nan" if case["fill"] is None else "zero" if case["fill"] == 0 else "finite"),
+        fq = case["fill"]
+        if isinstance(fq, str) and "inf" in fq:  # outside the quantifier (fill values NaN, 0 and finite numbers)
+            return outcome({"excluded": "infinite fill"}, None, None, spec_ok=True, model_ok=True, undetermined=True,
+                           hyp=False, features=["excluded:infinite-fill"])
+        fill = fill_value(fq)
+        dfill = None if fq is None else core.rat(Fraction(0 if fq == "-0" else fq, 4))
+        feats = {f"ndim{ndim}", f"mode:{mode}", "fill:" + ("nan" if fq is None else "neg-zero" if fq == "-0" else "zero" if fq == 0 else "finite"),
                  f"n{len(case['arrays'])}", case["kind"]}
         for a in case["arrays"]:
             if a.get("layout", "c") != "c":
                 feats.add("layout:" + a["layout"])
         if case["kind"] == "plain":
-            if not exact_ok([v for a in case["arrays"] for v in a["data"]]):
-                return outcome({"excluded": "sums not exact"}, None, None, spec_ok=True, model_ok=True, undetermined=True,
-                               hyp=False, features=["excluded:inexact-sums"])
-            arrays = [to_np(a, ndim) for a in case["arrays"]]
-            impl, unchanged, again, args = self.run_plain(register, case, case["arrays"], fill, mode, case.get("offs_kind"),
-                                                          repeat=bool(case.get("repeat")), kinds=True)
-            shared = args.shared()
-            feats |= args_feats(args)
-            base = dict(impl)
-            impl["inputs_unchanged"] = unchanged
-            if again is not None:
-                impl["second_call_same"] = again
-                feats.add("calls:second-call-on-same-objects")
-            if shared:
-                feats.add("alias:same-object-twice")
-            rep = ctx.driver.call("c11.overlap", mode=mode, fill=dfill, ndim=ndim,
-                                  arrays=[{"off": a["off"], "shape": a["shape"], "data": enc_data(a["data"])} for a in case["arrays"]])
-            model = {"shape": rep["shape"], "data": [qhex(v) for v in rep["model"]], "inputs_unchanged": True}
-            spec = {"shape": rep["shape"], "data": [qhex(v) for v in rep["spec"]], "inputs_unchanged": True}
-            if again is not None:
-                model["second_call_same"] = spec["second_call_same"] = True
-            if case.get("meta"):
-                impl["meta"] = self.metamorphic(register, case, base, fill)
-                model["meta"] = spec["meta"] = {k: True for k in impl["meta"]}
-                feats |= {"meta:" + k for k in impl["meta"]}
-            # feature classification from the driver's own per-pixel contributions is not available; use numpy counts
-            cover = np.zeros(rep["shape"], dtype=int)
-            cover_any = np.zeros(rep["shape"], dtype=int)
-            mo = np.min(np.array(offsets), axis=0)
-            for a, arr in zip(case["arrays"], arrays):
-                sl = tuple(slice(o - m, o - m + s) for o, m, s in zip(a["off"], mo, a["shape"]))
-                cover[sl] += ~np.isnan(arr)
-                cover_any[sl] += 1
-            if (cover >= 2).any():
-                feats.add("overlap>=2")
-            if ((cover == 0) & (cover_any > 0)).any():
-                feats.add("nan-only-pixel")
-            if (cover_any == 0).any():
-                feats.add("uncovered-pixel")
-            if any(min(a["off"]) < 0 for a in case["arrays"]):
-                feats.add("negative-offset")
-            if any(all(v is None for v in a["data"]) for a in case["arrays"]):
-                feats.add("whole-nan-array")
-            if any(abs(o) >= 2 ** 53 for a in case["arrays"] for o in a["off"]):
-                feats.add("offset>=2^53")
-            if len(case["arrays"]) > 255:
-                feats.add("contributions>255" if len(case["arrays"]) < 60000 else "contributions>=65535")
-            feats |= value_feats(case["arrays"], lo, [h - l for l, h in zip(lo, hi)], case["fill"], mode)
-            feats |= geom_feats(case["arrays"])
-            return outcome(impl, model, spec, features=feats if NONTRIVIAL & feats else [])
+            return self.eval_plain(register, case, ctx, feats)
         return self.eval_structured(register, case, ctx, fill, dfill, feats)
+
+    def eval_plain(self, register, case, ctx, feats):
+        ndim = case["ndim"]
+        fq0 = 0 if case["fill"] == "-0" else case["fill"]
+        descs = [{**a, "data": list(a["data"])} for a in case["arrays"]]
+        steps = [{"mode": case["mode"], "fill": case["fill"], "edits": []}] + list(case.get("then", []))
+        # exactness of every call of the history is decided before anything is run
+        probe = [{**a, "data": list(a["data"])} for a in descs]
+        for st in steps:
+            for i, k, v in st.get("edits", []):
+                if i < len(probe) and k < len(probe[i]["data"]):
+                    probe[i]["data"][k] = v
+            why = plain_inexact(probe, 0 if st.get("fill", case["fill"]) == "-0" else st.get("fill", case["fill"]))
+            if why:
+                return outcome({"excluded": why}, None, None, spec_ok=True, model_ok=True, undetermined=True,
+                               hyp=False, features=["excluded:inexact-sums"])
+        args = self.plain_args(case, descs, case["fill"], case["mode"], kinds=True)
+        feats |= args_feats(args)
+        if args.shared():
+            feats.add("alias:same-object-twice")
+        # list positions that hold one object are edited together
+        same = {}
+        for i, (v, _) in enumerate(args.pairs):
+            same.setdefault(id(v), []).append(i)
+        impl, model, spec = {"calls": []}, {"calls": []}, {"calls": []}
+        kept, unchanged, aliased, not_judged = [], True, False, False
+        first_raw, first_judged, first_spec = None, None, None
+        for n, st in enumerate(steps):
+            mode, fq = st.get("mode", case["mode"]), st.get("fill", case["fill"])
+            fq_m = 0 if fq == "-0" else fq
+            if n > 0:  # the caller edits the same image objects in place between the calls
+                feats.add("history:edit-then-merge-again")
+                for i, k, v in st.get("edits", []):
+                    if i >= len(descs) or k >= len(descs[i]["data"]):
+                        continue
+                    view = args.pairs[i][0]
+                    idx = np.unravel_index(k, view.shape)
+                    ro = not view.flags.writeable
+                    if ro:
+                        view.flags.writeable = True
+                    view[idx] = np.array(fval(v, descs[i].get("negzero", False))).astype(view.dtype)
+                    if ro:
+                        view.flags.writeable = False
+                    for j in same[id(view)]:
+                        descs[j]["data"][k] = v
+                fobj, _ = make_fill({"fill": fq, "fill_kind": case.get("fill_kind", "float")})
+                args.fill, args.mode = fobj, mode
+                args.before = args.picture()
+            got, raw = self.call_plain(register, args)
+            unchanged = unchanged and args.unchanged()
+            if st.get("repeat", case.get("repeat") if n == 0 else False):
+                again, raw2 = self.call_plain(register, args)
+                got["second_call_same"] = {k: v for k, v in again.items() if k != "msg"} == {k: v for k, v in got.items() if k != "msg"}
+                unchanged = unchanged and args.unchanged()
+                feats.add("calls:second-call-on-same-objects")
+                if raw2 is not None:
+                    kept.append((raw2, raw2.tobytes()))
+            if raw is not None:
+                aliased = aliased or any(np.shares_memory(raw, b) for _, b in args.pairs)
+                kept.append((raw, raw.tobytes()))
+            j = self.judge_plain(ctx, descs, mode, fq_m, ndim, got, feats)
+            if j is None:
+                not_judged = True
+                break
+            gi, gm, gs, judged = j
+            if "second_call_same" in gi:
+                gm["second_call_same"] = gs["second_call_same"] = True
+            impl["calls"].append(gi)
+            model["calls"].append(gm)
+            spec["calls"].append(gs)
+            if n == 0:
+                first_raw, first_judged, first_spec = raw, judged, gs
+        if not_judged:
+            return outcome({"result": "raises"}, None, None, spec_ok=True, model_ok=True, undetermined=True, hyp=False,
+                           features=feats)
+        # results handed out earlier are not touched by later calls or by edits of the inputs
+        impl["earlier_results_kept"] = all(r.tobytes() == b for r, b in kept)
+        # the result is the caller's: writing into it does not reach an input
+        if first_raw is not None and first_raw.flags.writeable and first_raw.size:
+            first_raw.view(np.uint8)[...] = 0xA5
+            args.before_edit_ok = args.unchanged()
+            impl["inputs_unchanged_by_editing_the_result"] = args.before_edit_ok and not aliased
+            model["inputs_unchanged_by_editing_the_result"] = spec["inputs_unchanged_by_editing_the_result"] = True
+        impl["inputs_unchanged"] = unchanged
+        for d in (model, spec):
+            d["inputs_unchanged"] = True
+            d["earlier_results_kept"] = True
+        # the first result fed into a second merge with further images (tiling)
+        if case.get("feed") and first_raw is not None and all(first_judged):
+            self.feed(register, case, ctx, descs0=[{**a, "data": list(a["data"])} for a in case["arrays"]],
+                      impl=impl, model=model, spec=spec, feats=feats)
+        if case.get("meta") and len(steps) == 1 and "data" in spec["calls"][0]:
+            impl["meta"] = self.metamorphic(register, case, case["arrays"], case["mode"], case["fill"], spec["calls"][0], first_judged)
+            model["meta"] = spec["meta"] = {k: True for k in impl["meta"]}
+            feats |= {"meta:" + k for k in impl["meta"]}
+        feats |= self.plain_feats(case, fq0)
+        return outcome(impl, model, spec, features=feats if NONTRIVIAL & feats else [])
+
+    def feed(self, register, case, ctx, descs0, impl, model, spec, feats):
+        """tiling: the images are merged once more (fill NaN), that result is handed in as the first image of a second
+        merge together with the images `case["feed"]`; judged (a) against the Lean specification with the first result's
+        values as an input and (b), in replace and sum mode, against the specification of the one merge of all images
+        (theorem tiling)."""
+        ndim, mode = case["ndim"], case["mode"]
+        a1 = self.plain_args(case, descs0, None, mode, kinds=False)
+        got1, raw1 = self.call_plain(register, a1)
+        if raw1 is None or raw1.dtype != np.float64:
+            return
+        vals = []
+        for v in raw1.ravel():
+            q = None if math.isnan(v) else "inf" if v == math.inf else "-inf" if v == -math.inf else Fraction(float(v)) * 4
+            if isinstance(q, Fraction):
+                if q.denominator != 1:
+                    feats.add("feed:skipped(first result not dyadic)")
+                    return
+                q = int(q)
+            vals.append(q)
+        lo = [min(a["off"][k] for a in descs0) for k in range(ndim)]
+        first = {"off": lo, "shape": list(raw1.shape), "data": vals, "dtype": "f8"}
+        more = [{**a, "data": list(a["data"])} for a in case["feed"]]
+        descs2 = [first] + more
+        if plain_inexact(descs2, 0 if case["fill"] == "-0" else case["fill"]) or plain_inexact(descs0 + more, case["fill"] if case["fill"] != "-0" else 0):
+            feats.add("feed:skipped(inexact)")
+            return
+        keep = raw1.tobytes()
+        a2 = self.plain_args(case, descs2, case["fill"], mode, kinds=False, extra_first=raw1)
+        got2, raw2 = self.call_plain(register, a2)
+        fq = 0 if case["fill"] == "-0" else case["fill"]
+        f2 = set()
+        j = self.judge_plain(ctx, descs2, mode, fq, ndim, got2, f2)
+        if j is None:
+            return
+        gi, gm, gs, judged = j
+        gi["inputs_unchanged"] = a2.unchanged() and raw1.tobytes() == keep
+        gm["inputs_unchanged"] = gs["inputs_unchanged"] = True
+        feats.add("history:result-fed-into-next-merge")
+        if mode != "mean" and all(judged) and all(a.get("dtype", "f8") == "f8" for a in descs0 + more):
+            j1 = self.judge_plain(ctx, descs0 + more, mode, fq, ndim, got2, set())
+            if j1 is not None and all(j1[3]):
+                gi["equals_one_merge_of_all"] = gi.get("data") == j1[2]["data"] and gi.get("shape") == j1[2]["shape"]
+                gm["equals_one_merge_of_all"] = gs["equals_one_merge_of_all"] = True
+                feats.add("history:tiling-equals-one-merge")
+        impl["fed"], model["fed"], spec["fed"] = gi, gm, gs
+
+    def plain_feats(self, case, fq0):
+        """feature classes of a plain case (from the case, not from the generator's labels)"""
+        feats = set()
+        arrs, ndim, mode = case["arrays"], case["ndim"], case["mode"]
+        lo = [min(a["off"][k] for a in arrs) for k in range(ndim)]
+        hi = [max(a["off"][k] + a["shape"][k] for a in arrs) for k in range(ndim)]
+        shape = [h - l for l, h in zip(lo, hi)]
+        cover = np.zeros(shape, dtype=int)
+        cover_any = np.zeros(shape, dtype=int)
+        pinf = np.zeros(shape, dtype=bool)
+        ninf = np.zeros(shape, dtype=bool)
+        for a in arrs:
+            sl = tuple(slice(o - m, o - m + s) for o, m, s in zip(a["off"], lo, a["shape"]))
+            d = np.array([v is not None for v in a["data"]], dtype=bool).reshape(a["shape"])
+            cover[sl] += d
+            cover_any[sl] += 1
+            pinf[sl] |= np.array([v == "inf" for v in a["data"]], dtype=bool).reshape(a["shape"])
+            ninf[sl] |= np.array([v == "-inf" for v in a["data"]], dtype=bool).reshape(a["shape"])
+        if (cover >= 2).any():
+            feats.add("overlap>=2")
+        if ((cover == 0) & (cover_any > 0)).any():
+            feats.add("nan-only-pixel")
+        if (cover_any == 0).any():
+            feats.add("uncovered-pixel")
+        if any(min(a["off"]) < 0 for a in arrs):
+            feats.add("negative-offset")
+        if any(a["data"] and all(v is None for v in a["data"]) for a in arrs):
+            feats.add("whole-nan-array")
+        if any(abs(o) >= 2 ** 53 for a in arrs for o in a["off"]):
+            feats.add("offset>=2^53")
+        if len(arrs) > 255:
+            feats.add("contributions>255" if len(arrs) < 60000 else "contributions>=65535")
+        if pinf.any() or ninf.any():
+            feats.add("value:infinity")
+            if (pinf & ninf).any():
+                feats.add("value:inf-and-neg-inf-on-one-pixel")
+        if any(0 in a["shape"] for a in arrs):
+            feats.add("size:zero-length-axis")
+        dts = [a.get("dtype", "f8") for a in arrs]
+        if set(dts) != {"f8"}:
+            feats.add("dtype:first=" + dts[0])
+            feats |= {"dtype:has-" + d for d in dts}
+            if len({dclass(d) for d in dts}) > 1:
+                feats.add("dtype:mixed-list")
+            seen_nan_float = False
+            for a in arrs:
+                if dclass(a.get("dtype", "f8")) in ("f8", "f4"):
+                    seen_nan_float = seen_nan_float or any(v is None for v in a["data"])
+                elif seen_nan_float:
+                    feats.add("dtype:integer-or-bool-after-float-with-nan")
+        finite = [{**a, "data": [v if isnum(v) else None for v in a["data"]]} for a in arrs]
+        feats |= value_feats(finite, lo, shape, fq0, mode)
+        feats |= geom_feats(arrs)
+        return feats
 
     def eval_structured(self, register, case, ctx, fill, dfill, feats):
         import warnings
